@@ -124,6 +124,29 @@ Definition top_members (v : json) : option (list (bytes * json)) :=
   | _ => None
   end.
 
+(* the entry signatures[name][kid] as VerifyJSON reads it since repair F61: only this entry is
+   decoded, the entries of other entities and the other key IDs of this one cannot matter.
+   signatures must be an object, signatures[name] an object (null: no entry), the entry a base64
+   string (null: the empty signature) *)
+Definition sig_entry (name kid : bytes) (j : json) : option json :=
+  match j with
+  | JObj sm => match assoc_last name sm with
+               | Some (JObj inner) => assoc_last kid inner
+               | _ => None
+               end
+  | _ => None
+  end.
+
+Definition sig_at (name kid : bytes) (v : json) : option bytes :=
+  match v with
+  | JObj m =>
+      match assoc_last k_signatures m with
+      | Some j => match sig_entry name kid j with Some e => decode_sig e | None => None end
+      | None => None
+      end
+  | _ => None
+  end.
+
 Section Scheme.
   Variable key : Type.
   Variable pub : key -> bytes.
@@ -155,23 +178,9 @@ Section Scheme.
 
   (* VerifyJSON on the value; true = nil error *)
   Definition verify_value (name kid p : bytes) (v : json) : bool :=
-    match v with
-    | JObj m =>
-        match assoc_last k_signatures m with
-        | None => false
-        | Some JNull => false
-        | Some j =>
-            match decode_sigs j with
-            | None => false
-            | Some sm =>
-                match lookup_sig name kid sm with
-                | None => false
-                | Some s =>
-                    sig_size_ok s && pk_size_ok p && verify p (canon_print (verified_part v)) s
-                end
-            end
-        end
-    | _ => false
+    match sig_at name kid v with
+    | Some s => sig_size_ok s && pk_size_ok p && verify p (canon_print (verified_part v)) s
+    | None => false
     end.
 
   (* SignJSON refuses a text that is not UTF-8 (repair F70) *)
@@ -191,16 +200,6 @@ End Scheme.
 
 (* ListKeyIDs: the members of signatures[name]; values need not be signatures.
    None = error. The Go result has map order; compared as a set. *)
-Definition entity_keys (j : json) : option (list bytes) :=
-  match j with
-  | JNull => Some []
-  | JObj m => Some (map fst m)
-  | _ => None
-  end.
-
-Definition keyid_outer (m : list (bytes * json)) : option (list (bytes * list bytes)) :=
-  traverse entity_keys m.
-
 Definition list_key_ids_value (name : bytes) (v : json) : option (list bytes) :=
   match top_members v with
   | None => None
@@ -209,9 +208,12 @@ Definition list_key_ids_value (name : bytes) (v : json) : option (list bytes) :=
       | None => Some []
       | Some JNull => Some []
       | Some (JObj sm) =>
-          match keyid_outer sm with
-          | None => None
-          | Some tbl => match assoc_last name tbl with Some ks => Some ks | None => Some [] end
+          (* only the entry of the named entity is decoded (repair F61) *)
+          match assoc_last name sm with
+          | None => Some []
+          | Some JNull => Some []
+          | Some (JObj inner) => Some (map fst inner)
+          | Some _ => None
           end
       | Some _ => None
       end
